@@ -185,6 +185,18 @@ func (g *c08Gen) resources() (ClusterResources, []string) {
 			}
 			n.Status.Addresses = append(n.Status.Addresses, corev1.NodeAddress{Type: corev1.NodeInternalIP, Address: a})
 		}
+		if r.Chance(1, 3) { // multi-homed node: further internal addresses of a family already listed
+			k := r.Range(1, 2)
+			for j := 0; j < k; j++ {
+				a := fmt.Sprintf("10.2.1.%d", i*4+j+1)
+				if r.Chance(1, 2) {
+					a = g.v4(r.Intn(3), r.Intn(256))
+				} else if r.Chance(1, 3) {
+					a = g.v6(r.Intn(2), r.Intn(256))
+				}
+				n.Status.Addresses = append(n.Status.Addresses, corev1.NodeAddress{Type: corev1.NodeInternalIP, Address: a})
+			}
+		}
 		if r.Chance(1, 3) { // external addresses do not count
 			n.Status.Addresses = append(n.Status.Addresses, corev1.NodeAddress{Type: corev1.NodeExternalIP, Address: g.v4(r.Intn(3), r.Intn(256))})
 		}
